@@ -262,10 +262,13 @@ def merge_evidence(prop, tier, seed, outdirs, wall, nviol, known_lines, level, n
               coverage=dict(evaluations=evaluations, distinct_nontrivial=distinct, rule=rule, samples=samples,
                             exhaustive=False, per_check=per_check, known_findings=known_lines),
               assumptions=notes, wall_s=round(wall, 2), violations=nviol)
-    os.makedirs(os.path.join(ROOT, "evidence"), exist_ok=True)
-    tmp = os.path.join(ROOT, "evidence", ".%s.%d.tmp" % (prop, os.getpid()))
+    # a run against a scratch copy of the repository (VERIF_REPO: sensitivity runs) does not describe
+    # /repo: its evidence goes to the run directory, never to /verif/evidence
+    evdir = os.path.join(ROOT, ".run", "evidence-scratch") if os.environ.get("VERIF_REPO") else os.path.join(ROOT, "evidence")
+    os.makedirs(evdir, exist_ok=True)
+    tmp = os.path.join(evdir, ".%s.%d.tmp" % (prop, os.getpid()))
     json.dump(ev, open(tmp, "w"), indent=1, sort_keys=False)
-    os.replace(tmp, os.path.join(ROOT, "evidence", "%s.json" % prop))
+    os.replace(tmp, os.path.join(evdir, "%s.json" % prop))
     return ev
 
 
